@@ -575,6 +575,8 @@ Inductive op :=
 | OUnalias (name : str)
 | OFuncDef (name : str) (body : N)
 | OSetOpt (i : nat) (b : bool)           (* set -o/+o name, shopt -s/-u name *)
+| OSetString (name s : str)              (* Runner.setVar(name, string): read NAME, (( NAME = n )),
+                                            for NAME in w, ... *)
 | OCallBegin (args : list str)           (* enter a function body: Runner.call *)
 | OCallEnd.                              (* leave it *)
 
@@ -695,6 +697,7 @@ Definition step (o : op) (r : runner) : M runner :=
           l <- o_alloc (CFuncs [(name, body)]) ;; ret (set_funcs (Some l) r)
       end
   | OSetOpt i b => ret (set_opts (set_nth (r_opts r) i b) r)
+  | OSetString name s => _ <- set_var_string r name s ;; ret r
   | OCallBegin args =>
       p <- m_alloc_list zs (map VS args) 0 ;;
       e <- o_alloc (CEnv (Some (r_env r)) true []) ;;
